@@ -349,7 +349,19 @@ def header(ctx_probe_kinv, td, g):
             "(* the same law for data living on one side of an interior facet (each side has its own cell map) *)\n"
             f"Hypothesis HchainT : forall (s : side) (kd id_ : nat) (c : list nat) (j : nat), Dx j (env s kd id_ c) = "
             + body.replace(" x)", " (env s kd id_ c))") + ".\n"
-            "Ltac finish := first [ reflexivity | ring | field; nz_solve char0\n"
+            "(* name every distinct function application once (equal arguments are identified by ring) so that the\n"
+            "   remaining goal is polynomial in these atoms; linear in the number of distinct atoms *)\n"
+            "Ltac abs_fn :=\n"
+            "  repeat match goal with\n"
+            "  | |- context [fn ?f ?X] =>\n"
+            "      first [ match goal with\n"
+            "              | a := fn f ?Y |- _ => replace (fn f X) with a by (unfold a; f_equal; ring)\n"
+            "              end\n"
+            "            | let a := fresh \"sq\" in set (a := fn f X) in * ]\n"
+            "  end.\n"
+            "Ltac finish := first [ reflexivity | ring\n"
+            "                     | abs_fn; first [ reflexivity | ring | field; nz_solve char0 ]\n"
+            "                     | field; nz_solve char0\n"
             "                     | repeat unify1; first [ reflexivity | ring | field; nz_solve char0 ] ].\n")
 
 
